@@ -79,8 +79,8 @@ func parseUriParameters(s string, sipUri *SIPURI) error {
 	for _, param := range strings.Split(s, ";") {
 		pos := strings.IndexByte(param, '=')
 		if pos == -1 {
-			if param == "lr" {
-				sipUri.Parameters = append(sipUri.Parameters, KeyValue{Key: "lr", Value: ""})
+			if len(param) > 0 {
+				sipUri.Parameters = append(sipUri.Parameters, KeyValue{Key: param, Value: ""})
 			} else {
 				return errors.New("invalid parameter format")
 			}
